@@ -13,3 +13,8 @@ import SpoxModel.Props.C12
 #print axioms C12.var_writes_ok
 #print axioms C12.swaps_restored
 #print axioms C12.inline_copies_first
+#print axioms C12.cache_transparent
+#print axioms C12.setters_reset
+#print axioms C12.memo_guarded
+#print axioms C12.builder_reads_known
+#print axioms C12.cache_stale_counterexample
